@@ -5,10 +5,13 @@ MANIFEST = {
     "text": "Kernel model (watchers, onWatch immediate answer when terminating, dead-letter process answering Watch for unknown addresses, "
             "notification of watchers then parent with the parent skipped among the watchers) replayed in lockstep against the real actor "
             "system with Watch/UnWatch placed at random relative to terminations, including never-existing addresses and watching parents. "
-            "Proved: a terminated actor emits nothing further (C06_terminated_is_silent_partial); concrete executions of every clause are "
-            "checked by vm_compute Examples. The universally quantified counting theorem is not proved yet; the clause is checked per run "
-            "by step equality with the model and the monitors C06:spurious-notification / C06:duplicate-notification.",
-    "note": "Partial. Same trusted base as C03.",
+            "Proved for every role table and every run from the fresh system (Kernel/Watch.v, invariant over watcher tables, queued Watch "
+            "requests and queued notices, relative to the trace): C06_notified_only_if_entitled — an address handles OnTerminated(w) only if it "
+            "issued a Watch for w earlier in the run or is the parent of an object created under w (no spurious notification); a terminated "
+            "actor emits nothing further (C06_terminated_is_silent_partial); concrete executions of every clause by vm_compute Examples. The "
+            "universally quantified COUNTING clause (exactly one) is not proved; it is checked per run by step equality with the model and "
+            "the monitors C06:duplicate-notification / C06:missing-notification / sentinel.",
+    "note": "Partial (counting clause by correspondence + monitors only). Same trusted base as C03.",
     "technique": "Coq proof on a message-step kernel model + lockstep differential replay of the real actor system inside Coq",
 }
 
